@@ -190,6 +190,7 @@ func TestC09(t *testing.T) {
 	explore(t, r, "C09", cs, map[string]bool{"ms": true, "kms": true, "aead": true, "alloc": true}, ev.Pick(12, 100))
 	schedulesForC09(t, r)
 	sessionCacheLedger(t, r)
+	capacityScenarios(t, r)
 	r.Finish(t)
 }
 
@@ -199,6 +200,14 @@ func TestC10(t *testing.T) {
 	r.Assume("holding a reference keeps the buffer from being recycled, so reading it after the call is sound")
 	cs := cells([]string{"simple", "nocache", "lru1-shared"}, []string{"enc", "dec"})
 	explore(t, r, "C10", cs, map[string]bool{"ms": true, "kms": true, "aead": true, "alloc": true}, ev.Pick(12, 100))
+	// the same sweep over the other secure-memory implementation (its New must wipe the source slice too)
+	secretImpl = "protectedmemory"
+	cs2 := cells([]string{"simple", "nocache"}, []string{"enc", "dec"})
+	if !ev.Thorough() {
+		cs2 = cs2[:len(cs2)/2]
+	}
+	explore(t, r, "C10", cs2, map[string]bool{"ms": true, "kms": true, "aead": true, "alloc": true}, ev.Pick(0, 40))
+	secretImpl = "memguard"
 	awsPlaintexts(t, r)
 	r.Finish(t)
 }
